@@ -225,6 +225,85 @@ static void check_thd(int n, vh::Rng& r) {
     vh::obs_add("thd_cases");
 }
 
+//the `aliased` option: a fundamental high in the band whose harmonics lie beyond Nyquist (up to 6*f0 > 2*fs) and fold back; the folded
+//components are kept 110 bins away from each other, from DC and from Nyquist, and thd(x, nharm, true) must find them where they fold to
+static void check_thd_aliased(int n, vh::Rng& r) {
+    int nfft = 1;
+    while (nfft < n) {
+        nfft <<= 1;
+    }
+    const double binw = 1.0 / nfft;
+    const int nharm = int(r.range(3, 6));   //components 1..nharm
+    double f0 = 0;
+    std::vector<double> fa(nharm);
+    bool found = false;
+    for (int attempt = 0; attempt < 400 && !found; ++attempt) {
+        f0 = r.uni(0.26, 0.47);
+        found = true;
+        for (int k = 1; k <= nharm && found; ++k) {
+            const double f = k * f0;
+            const double fr = f - std::floor(f);
+            fa[k - 1] = (fr <= 0.5) ? fr : 1.0 - fr;
+            if (fa[k - 1] < 110 * binw || fa[k - 1] > 0.5 - 110 * binw) {
+                found = false;
+            }
+            for (int j = 0; j < k - 1 && found; ++j) {
+                if (std::fabs(fa[j] - fa[k - 1]) < 110 * binw) {
+                    found = false;
+                }
+            }
+        }
+    }
+    if (!found) {
+        vh::skip("thd_aliased_no_admissible_fundamental");
+        return;
+    }
+    const double A = std::pow(10.0, r.uni(-40, 40) / 20);
+    std::vector<double> dbc(nharm, 0.0);
+    ld hsum = 0;
+    for (int k = 1; k < nharm; ++k) {
+        dbc[k] = -r.uni(10, 40);
+        hsum += powl(10, ld(dbc[k]) / 10);
+    }
+    arr_real x(n);
+    std::vector<double> ph(nharm);
+    for (int k = 0; k < nharm; ++k) {
+        ph[k] = r.uni(-3, 3);
+    }
+    for (int i = 0; i < n; ++i) {
+        long double s = 0;
+        for (int k = 0; k < nharm; ++k) {
+            //phase reduced modulo 1 in long double before the cosine: harmonic k+1 at (k+1)*f0 cycles per sample
+            const long double cyc = fmodl((long double)(k + 1) * (long double)f0 * i, 1.0L);
+            s += powl(10, (long double)dbc[k] / 20) * cosl(2 * ref::PI_L * cyc + ph[k]);
+        }
+        x[i] = double(A * s);
+    }
+    const std::string cfg = vh::fmt("tone f0=%.6f with harmonics up to %d*f0=%.4f (aliased=true), n=%d (nfft %d), amplitude %.1f dB", f0, nharm, nharm * f0, n, nfft, 20 * std::log10(A));
+    vh::begin_case("thd_aliased", "%s", cfg.c_str());
+    vh::Hasher hh;
+    hh.s(cfg);
+    vh::count(hh.get(), true);
+    vh::obs_add(nharm * f0 >= 2.0 ? "thd_aliased_cases_beyond_two_fs" : "thd_aliased_cases");
+    const auto t = dl::thd(x, nharm, true);
+    const ld want_thd = 10 * log10l(hsum);
+    if (!(fabsl(ld(t.value) - want_thd) <= 0.1L)) {
+        vh::violation("C19/thd_aliased/value", cfg + vh::fmt(": thd = %.4f dB, harmonic-to-fundamental power ratio = %.4Lf dB", t.value, want_thd));
+        return;
+    }
+    if (t.harmfreq.size() != nharm) {
+        vh::violation("C19/thd_aliased/sizes", cfg + vh::fmt(": harmfreq has %d entries", t.harmfreq.size()));
+        return;
+    }
+    for (int k = 0; k < nharm; ++k) {
+        const double dev_bins = std::fabs(t.harmfreq[k] - fa[k]) / binw;
+        if (!(dev_bins <= 0.1)) {
+            vh::violation("C19/thd_aliased/frequency", cfg + vh::fmt(": component %d reported at %.8f, folds to %.8f (%.3f bins off)", k + 1, t.harmfreq[k], fa[k], dev_bins));
+            return;
+        }
+    }
+}
+
 static std::vector<double> script(int seed, vh::Rng r) {
     std::vector<double> v;
     dl::rng(seed);
@@ -333,6 +412,9 @@ int main(int argc, char** argv) {
             vh::Rng r = vh::rng_for("thd", t);
             const int n = (t % 3 == 0) ? (1 << int(r.range(11, 17))) : int(r.range(2048, 131072));
             check_thd(n, r);
+            if (t % 2 == 0) {
+                check_thd_aliased(n, r);
+            }
         }
     }
     //reproducibility: seeds 0..3000 / 0..20000
